@@ -99,14 +99,17 @@ static int viol_codes(int a, int r, int *codes)
 #define SENT_KF ((econf_file *)(uintptr_t)0x10)
 #define SENT_HIST ((econf_file **)(uintptr_t)0x20)
 
-/* one read through the entry point; fills kf or hist */
+/* one read through the entry point; fills kf or hist. relnames: the same files named relative to the current directory (= root) */
+static int relnames;
 static econf_err do_read(econf_file **kf, econf_file ***hist, size_t *hsize)
 {
   econf_err rc = ECONF_ERROR;
   *kf = SENT_KF; *hist = SENT_HIST; *hsize = 777;
+  size_t skip = relnames ? strlen(root) + 1 : 0;
+  const char *f0 = t_path[0] + skip, *l0 = ts.layer_dir[0] + skip, *l1 = ts.layer_dir[1] + skip;
   switch (mc_tag) {
-  case 0: rc = econf_readFile(kf, t_path[0], "=", "#"); break;
-  case 1: rc = econf_readFileWithCallback(kf, t_path[0], "=", "#", cb_accept, NULL); break;
+  case 0: rc = econf_readFile(kf, f0, "=", "#"); break;
+  case 1: rc = econf_readFileWithCallback(kf, f0, "=", "#", cb_accept, NULL); break;
   case 2: case 3:
     *kf = NULL;
     rc = econf_newKeyFile_with_options(kf, options);
@@ -114,10 +117,10 @@ static econf_err do_read(econf_file **kf, econf_file ***hist, size_t *hsize)
     rc = mc_tag == 2 ? econf_readConfig(kf, "proj", "/usr/lib", "cfg", "conf", "=", "#")
                      : econf_readConfigWithCallback(kf, "proj", "/usr/lib", "cfg", "conf", "=", "#", cb_accept, NULL);
     break;
-  case 4: rc = econf_readDirs(kf, ts.layer_dir[0], ts.layer_dir[1], "cfg", "conf", "=", "#"); break;
-  case 5: rc = econf_readDirsWithCallback(kf, ts.layer_dir[0], ts.layer_dir[1], "cfg", "conf", "=", "#", cb_accept, NULL); break;
-  case 6: rc = econf_readDirsHistory(hist, hsize, ts.layer_dir[0], ts.layer_dir[1], "cfg", "conf", "=", "#"); break;
-  default: rc = econf_readDirsHistoryWithCallback(hist, hsize, ts.layer_dir[0], ts.layer_dir[1], "cfg", "conf", "=", "#", cb_accept, NULL); break;
+  case 4: rc = econf_readDirs(kf, l0, l1, "cfg", "conf", "=", "#"); break;
+  case 5: rc = econf_readDirsWithCallback(kf, l0, l1, "cfg", "conf", "=", "#", cb_accept, NULL); break;
+  case 6: rc = econf_readDirsHistory(hist, hsize, l0, l1, "cfg", "conf", "=", "#"); break;
+  default: rc = econf_readDirsHistoryWithCallback(hist, hsize, l0, l1, "cfg", "conf", "=", "#", cb_accept, NULL); break;
   }
   mc_st->libcalls++;
   return rc;
@@ -212,6 +215,16 @@ static void exec(void)
       pthread_join(th, NULL);
       if (ta.rc != rc) mc_fail(sig.s, "the read returns %d (%s) in the thread that set the rules and %d (%s) in another thread; %s", (int)rc, econf_errString(rc), (int)ta.rc, econf_errString(ta.rc), sig.s);
       release(ta.kf, ta.hist, ta.hsize); }
+    /* how a file is named does not matter: the same read with names relative to the current directory is refused in the same way */
+    if (mc_tag != 2 && mc_tag != 3) {
+      char cwd[600]; econf_file *rkf; econf_file **rhist; size_t rhsize;
+      if (!getcwd(cwd, sizeof cwd) || chdir(root) != 0) mc_die("chdir to the tree");
+      relnames = 1; econf_err rrc = do_read(&rkf, &rhist, &rhsize); relnames = 0;
+      if (chdir(cwd) != 0) mc_die("chdir back");
+      if (rrc != rc) mc_fail(sig.s, "the read returns %d (%s) when the files are named by absolute path and %d (%s) when the same files are named relative to the current directory; %s", (int)rc, econf_errString(rc), (int)rrc, econf_errString(rrc), sig.s);
+      release(rkf, rhist, rhsize);
+      mc_extra(1, "relative_name_rereads", 1);
+    }
   } else check_accepted("under restrictions", rc, kf, hist, hsize, list, nlist, sig.s);
   release(kf, hist, hsize);
   mc_outcome(((uint64_t)rc << 4) ^ (uint64_t)restr ^ ((uint64_t)(viol_at + 1) << 12));
